@@ -102,11 +102,22 @@ func stringEntries() []entry {
 			_ = netutil.IsImmediateSubdomain("x."+s, s)
 		}},
 		{"netutil.Prefix.UnmarshalText", func(s, _ string) { var p netutil.Prefix; touch(p.UnmarshalText([]byte(s))) }},
-		{"hostsfile.Record.UnmarshalText", func(s, _ string) {
+		{"hostsfile.Record.UnmarshalText", func(s, p string) {
 			rec := &hostsfile.Record{}
+			switch len(s) % 4 { // receivers as callers that recycle records leave them
+			case 1:
+				rec.Names = make([]string, 0, 8)
+			case 2:
+				rec.Names = make([]string, 1, 2)
+			case 3:
+				rec.Names = append(make([]string, 0, 3), "stale.example")
+			}
 			err := rec.UnmarshalText([]byte(s))
 			touch(err)
 			_, _ = rec.MarshalText()
+			touch(rec.UnmarshalText([]byte(p))) // second line into the same record
+			rec.Names = rec.Names[:0]
+			touch(rec.UnmarshalText([]byte(s)))
 		}},
 		{"hostsfile.Parse", func(s, p string) {
 			st, err := hostsfile.NewDefaultStorage(strings.NewReader(s + "\n" + p))
